@@ -40,6 +40,11 @@ def akai_sample_items(rng, n: int):
                   loop_type=rng.randrange(0, 5), pitch_offset_cents=rng.randrange(-128, 128), pitch_offset_semi=rng.randrange(-128, 128),
                   samples_cnt=rng.randrange(2 ** 31), play_start=rng.randrange(2 ** 30), play_end=rng.randrange(2 ** 30, 2 ** 31),
                   sampling_rate=rng.choice([0, 0, 1, 22050, 44100, 65535, rng.randrange(65536)]), loops=loops)
+        # names that fill their 12-character field: ending in the digit 0 (AKAI code 0x00), in a blank-like run, in a dot
+        if i < 4:
+            st["sample_name"] = ["GRANDPIANO10", "SYNTHBASS100", "STRINGS 2000", "A.B.C.D.E.F."][i]
+        if i in (4, 5):
+            st["file_name"] = ["F4-KICK 0000", "F5 000000000"][i - 4]
         items.append(st)
     return items
 
